@@ -320,6 +320,55 @@ pub async fn check_file(fs: &Fs, stack: &[Layer], rows: &[V], cfg: &FileCfg, win
     out
 }
 
+
+/// classification over every leaf column of the test table: the `c` path (the whole stack) and the `k`
+/// sibling below every struct layer (a non-null int32 leaf under the stack prefix ending at that struct)
+pub fn table_cause(stack: &[Layer], rows: &[V], cfg: &FileCfg) -> Option<&'static str> {
+    fn cut(v: &V, depth: usize, at: usize) -> V {
+        // the value seen by the `k` leaf below the struct at layer `at - 1`
+        if depth == at {
+            return if matches!(v, V::Null | V::NullG) { V::Null } else { V::Leaf };
+        }
+        match v {
+            V::List(xs) => V::List(xs.iter().map(|x| cut(x, depth + 1, at)).collect()),
+            V::Struct(c) => V::Struct(Box::new(cut(c, depth + 1, at))),
+            other => other.clone(),
+        }
+    }
+    let sh = crate::c27::FileShape { split: cfg.split, pages: cfg.pages, fullzip: cfg.structural == "fullzip", sliced: false };
+    if let Some(c) = crate::c27::file_cause(stack, rows, sh) {
+        return Some(c);
+    }
+    for (i, l) in stack.iter().enumerate() {
+        if *l == Layer::Struct {
+            // k sits below struct i: its own slot is always valid -> cut at depth i + 1 and mark valid
+            let krows: Vec<V> = rows
+                .iter()
+                .map(|r| {
+                    fn k_of(v: &V, depth: usize, at: usize) -> V {
+                        match v {
+                            V::Null | V::NullG => V::Null,
+                            V::Struct(c) if depth == at => {
+                                let _ = c;
+                                V::Struct(Box::new(V::Leaf))
+                            }
+                            V::List(xs) => V::List(xs.iter().map(|x| k_of(x, depth + 1, at)).collect()),
+                            V::Struct(c) => V::Struct(Box::new(k_of(c, depth + 1, at))),
+                            other => other.clone(),
+                        }
+                    }
+                    k_of(r, 0, i)
+                })
+                .collect();
+            if let Some(c) = crate::c27::file_cause(&stack[..=i], &krows, sh) {
+                return Some(c);
+            }
+        }
+    }
+    let _ = cut;
+    None
+}
+
 fn case_json(stack: &[Layer], rows: &[V], cfg: &FileCfg, req: &Value) -> Value {
     json!({"kind":"repdef_file","stack":stack_name(stack),"rows":rows.iter().map(|r| r.to_json()).collect::<Vec<_>>(),"cfg":cfg.to_json(),"req":req})
 }
@@ -339,21 +388,18 @@ fn record(stack: &[Layer], rows: &[V], cfg: &FileCfg, fo: FileOutcome, cov: &mut
         cov.outcome("file/ok");
     }
     let tiled: Vec<V> = (0..cfg.tile.max(1)).flat_map(|_| rows.iter().cloned()).collect();
-    let cause = crate::c27::file_cause(stack, &tiled, cfg.split, cfg.pages);
+    let cause = table_cause(stack, &tiled, cfg);
     for (k, d, req) in fo.fails {
         cov.outcome(&format!("file/fail/{}", cause.unwrap_or("unclassified")));
-        // k = "<request kind>/<failure kind>"; files whose rows match the structural description of an
-        // analysed defect are keyed by it, everything else keeps the full key
+        // k = "<request kind>/<failure kind>/<detail>": part of the description; the key is the root-cause
+        // class of the file's shape, or (unclassified) the configuration + symptom
         let symptom = k.splitn(2, '/').nth(1).unwrap_or(&k).to_string();
         let batching = if cfg.tile > 1 { "tiled" } else if cfg.pages { "two-pages" } else if cfg.split > 0 { "two-batches" } else { "one-batch" };
         let key = match cause {
-            Some(c) => {
-                // downstream error texts of an analysed defect are noise; the differing column of a value mismatch is kept
-                let sym = if symptom.starts_with("value/") { symptom.clone() } else { symptom.split('/').next().unwrap_or("?").to_string() };
-                format!("file/{}/{c}/{sym}", cfg.version)
-            }
-            None => format!("file/{}/{}/{}/{batching}/{symptom}", cfg.version, cfg.structural, cfg.leaf),
+            Some(c) => c.to_string(),
+            None => format!("file/unclassified/{}/{}/{}/{batching}/{symptom}", cfg.version, cfg.structural, cfg.leaf),
         };
+        let d = format!("[{k}] {d}");
         viol.push(Violation::new(
             "rows-to-items",
             &key,
@@ -381,7 +427,10 @@ pub fn replay(_ctx: &Ctx, case: &Value, cov: &mut Cov, viol: &mut Vec<Violation>
         Ok(fo) => record(&stack, &rows, &cfg, fo, cov, viol),
         Err(p) => viol.push(Violation::new(
             "rows-to-items",
-            &format!("file/{}/{}/{}/{}/panic", cfg.version, cfg.structural, cfg.leaf, stack_name(&stack)),
+            &match table_cause(&stack, &rows, &cfg) {
+                Some(c) => c.to_string(),
+                None => format!("file/unclassified/{}/{}/{}/replay/panic/{}", cfg.version, cfg.structural, cfg.leaf, val::msg_class(&p)),
+            },
             format!("panic: {p}"),
             case.clone(),
         )),
@@ -410,7 +459,7 @@ struct Item {
 }
 
 pub fn run(ctx: &Ctx, cov: &mut Cov, viol: &mut Vec<Violation>) -> Value {
-    let cap: usize = ctx.tier.pick(220, 6000);
+    let cap: usize = ctx.tier.pick(200, 6000);
     let stacks: Vec<Vec<Layer>> = crate::c27::all_stacks(3).into_iter().filter(|s| !s.contains(&Layer::Fsl)).collect();
     let mut cfgs = vec![];
     for version in ctx.tier.pick(vec!["2.1"], vec!["2.1", "2.2"]) {
@@ -464,7 +513,7 @@ pub fn run(ctx: &Ctx, cov: &mut Cov, viol: &mut Vec<Violation>) -> Value {
             scope.push(json!({"stack":stack_name(st),"max_list_len":1,"rows":1,"row_tuples":vals.len()}));
         }
     }
-    let deadline = ctx.tier.pick(38.0, 700.0);
+    let deadline = ctx.opts.get("deadline").and_then(|d| d.parse().ok()).unwrap_or(ctx.tier.pick(30.0, 700.0));
     let capped = std::sync::atomic::AtomicBool::new(false);
     let ctx_start = ctx.start;
     let res = vcore::par_map(items, ctx.workers, |_, it| {
@@ -495,9 +544,9 @@ pub fn run(ctx: &Ctx, cov: &mut Cov, viol: &mut Vec<Violation>) -> Value {
                         Ok(fo) => record(&it.stack, &rows, cfg, fo, &mut cov, &mut viol),
                         Err(p) => {
                             cov.outcome("file/panic");
-                            let key = match crate::c27::file_cause(&it.stack, &rows, cfg.split, cfg.pages) {
-                                Some(c) => format!("file/{}/{c}/panic", cfg.version),
-                                None => format!("file/{}/{}/{}/{}/panic/{}", cfg.version, cfg.structural, cfg.leaf, if cfg.pages { "two-pages" } else if cfg.split > 0 { "two-batches" } else { "one-batch" }, val::msg_class(&vcore::panic_message(&p))),
+                            let key = match table_cause(&it.stack, &rows, cfg) {
+                                Some(c) => c.to_string(),
+                                None => format!("file/unclassified/{}/{}/{}/{}/panic/{}", cfg.version, cfg.structural, cfg.leaf, if cfg.pages { "two-pages" } else if cfg.split > 0 { "two-batches" } else { "one-batch" }, val::msg_class(&vcore::panic_message(&p))),
                             };
                             viol.push(Violation::new(
                                 "rows-to-items",
@@ -536,9 +585,14 @@ pub fn run(ctx: &Ctx, cov: &mut Cov, viol: &mut Vec<Violation>) -> Value {
             }
         }
         tiled_files = jobs.len() as u64;
+        let tiled_deadline = deadline + ctx.tier.pick(8.0, 120.0);
         let res = vcore::par_map(jobs, ctx.workers, |_, (st, rows, cfg)| {
             let mut cov = Cov::new();
             let mut viol = vec![];
+            if ctx_start.elapsed().as_secs_f64() > tiled_deadline {
+                capped.store(true, std::sync::atomic::Ordering::SeqCst);
+                return (cov, viol);
+            }
             let windows = tile_windows(rows.len() * cfg.tile);
             let fo = vcore::catch(|| {
                 vstore::block_on(async {
@@ -550,7 +604,10 @@ pub fn run(ctx: &Ctx, cov: &mut Cov, viol: &mut Vec<Violation>) -> Value {
                 Ok(fo) => record(&st, &rows, &cfg, fo, &mut cov, &mut viol),
                 Err(p) => viol.push(Violation::new(
                     "rows-to-items",
-                    &format!("file/{}/{}/{}/tiled/panic/{}", cfg.version, cfg.structural, cfg.leaf, val::msg_class(&p)),
+                    &match table_cause(&st, &(0..cfg.tile).flat_map(|_| rows.iter().cloned()).collect::<Vec<V>>(), &cfg) {
+                        Some(c) => c.to_string(),
+                        None => format!("file/unclassified/{}/{}/{}/tiled/panic/{}", cfg.version, cfg.structural, cfg.leaf, val::msg_class(&p)),
+                    },
                     format!("stack {} rows {}: panic: {p}", stack_name(&st), Value::Array(rows.iter().map(|r| r.to_json()).collect())),
                     case_json(&st, &rows, &cfg, &json!(null)),
                 )),
